@@ -28,12 +28,14 @@ DELIVER = {"tsb", "gbc_in", "gac_in", "guc_f"}
 FORWARD = {"tsb", "gbc_in", "gbc_out", "gac_out", "guc_d", "lsq_d", "lsr_d"}
 
 
-def mk_packet(kind, src, sn, rhl, now, mhl=255, tst_off=0):
+def mk_packet(kind, src, sn, rhl, now, mhl=255, tst_off=0, lt=None):
     so = dict(tst=(tst_of(now) + tst_off) % 2**32, lat=FLAT + 10000, lon=FLON, pai=1, s=0, h=0)
     payload = b"\x07\xd1\x00\x00" + bytes([KINDS.index(kind), ord(src[-1])]) + sn.to_bytes(2, "big")
     area_in = dict(lat=FLAT, lon=FLON, a=500, b=500, angle=0, shape=0)
     area_out = dict(lat=FLAT + 200000, lon=FLON, a=100, b=100, angle=0, shape=0)
     kw = dict(so_addr=ADDR[src], so=so, sn=sn, rhl=rhl, mhl=mhl, nh=G.CNH_BTPB, payload=payload)
+    if lt is not None:
+        kw["lt"] = lt
     if kind == "tsb":
         return G.build("tsb", **kw)
     if kind in ("gbc_in", "gbc_out", "gac_in", "gac_out"):
@@ -70,10 +72,11 @@ class RefForwarder:
 class FwdModel:
     """One real forwarder F fed crafted packets; lock-step comparison with RefForwarder."""
 
-    def __init__(self, alphabet, dpl_len, algo="SIMPLE"):
+    def __init__(self, alphabet, dpl_len, algo="SIMPLE", vary_lt=False):
         self.alphabet = alphabet
         self.dpl_len = dpl_len
         self.algo = algo
+        self.vary_lt = vary_lt      # every lifetime code once (forwarded copies must keep the lifetime octet)
 
     def init(self):
         net = Net()
@@ -90,7 +93,7 @@ class FwdModel:
         f = w.stations["F"]
         w.sent.clear()
         f.gn_indications.clear()
-        pkt = mk_packet(kind, src, sn, rhl, w.now)
+        pkt = mk_packet(kind, src, sn, rhl, w.now, lt=(rhl * 37 + 5) % 256 if self.vary_lt else None)
         w.last_pkt = pkt
         w.exp = w.ref.step(kind, src, sn, rhl)
         w.inject("F", pkt)
@@ -298,7 +301,7 @@ def _grid_job(args):
     out = []
     n = 0
     for rhl in range(256):
-        m = FwdModel([], 8, algo)
+        m = FwdModel([], 8, algo, vary_lt=True)
         w = m.init()
         ev = (kind, "S1", 7, rhl)
         try:
